@@ -22,7 +22,8 @@ pub fn run(sc: &Value) -> Value {
         Err(e) => json!({"outcome":"err","message":e.to_string()}),
         Ok(w) => {
             let v = serde_json::to_value(&w).unwrap();
-            let inner = &v["V0_1"];
+            // the statement document itself (an older, externally tagged serialisation nested it under "V0_1")
+            let inner = if v.get("V0_1").is_some() { &v["V0_1"] } else { &v };
             let declared = vername(inner["predicateType"].as_str().unwrap_or(""));
             let actual = match PredicateWrapper::judge_from_value(&inner["predicate"]) { Ok(ver) => vername(&String::from(ver)), Err(_) => "?" };
             json!({"outcome": format!("ok:declared={},actual={}", declared, actual)})
